@@ -7,8 +7,12 @@
 // is and with the filter wrapped in a semantically neutral group that the planner cannot index
 // (OR{SubGroups:[F]} and AND{SubGroups:[AND{SubGroups:[F]}]}). gateway.PlanFilter tells which
 // route each form takes; pairs that took different routes must stream the same records in the
-// same order (up to equal sort keys) with the same payload and MatchedLabels. Single-leg
-// Equal/IN queries are additionally held against valuecanon.Equal on the decoded field values.
+// same order (up to equal sort keys) with the same payload and MatchedLabels. A mismatch is
+// reduced (request features dropped one by one, filter cut down to a single leg if that still
+// disagrees) and named by what remains. Single-leg Equal/IN queries are additionally held against
+// valuecanon.Equal on the decoded field values (and valuecanon.Equal against its documented
+// rule), and every pair is re-issued through single-query GetByIndexStreamFromMany, which
+// duplicates the routing code.
 package c08
 
 import (
@@ -19,7 +23,6 @@ import (
 	"math"
 	"math/big"
 	"os"
-	"sort"
 	"strings"
 	"testing"
 	"testing/synctest"
@@ -353,26 +356,28 @@ func (x *exec) hasTies(idx int32) bool {
 	return false
 }
 
-// zeroTimeTies: a stream on a time index carries two or more records without that timestamp
-// (they all tie at zero) while the request cuts the sequence.
+// zeroTimeTies: a stream on a time index carries records without that timestamp (they all tie
+// at zero) so that their relative order, or which of them a cut keeps, is unspecified.
 func (x *exec) zeroTimeTies(q *Query, rs ...result) bool {
-	if hydrapb.IndexType_Type(q.Idx) == hydrapb.IndexType_KEY || (q.From == 0 && q.Limit == 0 && q.MaxResults == 0) {
+	if hydrapb.IndexType_Type(q.Idx) == hydrapb.IndexType_KEY {
 		return false
 	}
-	n := 0
+	total := 0
 	for _, k := range x.skeys {
 		if tsOf(x.snap[k], q.Idx) == 0 {
-			n++
+			total++
 		}
 	}
-	if n < 2 {
-		return false
-	}
+	cut := q.From > 0 || q.Limit > 0 || q.MaxResults > 0
 	for _, r := range rs {
+		n := 0
 		for _, it := range r.items {
 			if tsOf(x.snap[it.key], q.Idx) == 0 {
-				return true
+				n++
 			}
+		}
+		if n >= 2 || (n >= 1 && cut && total >= 2) {
+			return true
 		}
 	}
 	return false
@@ -1123,7 +1128,6 @@ func TestCheck(t *testing.T) {
 		r.Stop()
 		time.Sleep(2 * time.Minute)
 	})
-	_ = sort.Strings
 }
 
 func firstQuery(cs Case) any {
